@@ -1,4 +1,5 @@
 import CstModel.Props.C19
+import CstModel.Props.C03
 open Cst.C19
 #print axioms boundary_window
 #print axioms takeBytes_of_boundary
@@ -9,3 +10,5 @@ open Cst.C19
 #print axioms debug_lines
 #print axioms leafTexts_leaves
 #print axioms display_text
+#print axioms Cst.C03.forwarders_elem_ok
+#print axioms Cst.C03.forwarders_resolved_ok
